@@ -18,6 +18,16 @@ CLAIMED = {
    text="Seeded search over files (option swarm) and histories of SeekToRow/ReadRows/ReadPage/ReadValues/OffsetIndex operations; after every operation the rows or values returned must be exactly model[cursor:cursor+m], io.EOF only at the end, progress within 8 calls. Sampling of histories and configurations.",
    note="Seek targets within [0, NumRows]; forward-only readers are not given backward seeks; zero-length ReadValues is not exercised.",
    ref="DESIGN.md §4 C08"),
+ "C09": dict(level="exploration", engine="E4 stream-sim",
+   technique="deterministic simulation: k sorted inputs with drawn overlap patterns fed through simulated row sources (scripted chunking and EOF styles) or simulated storage, merged and consumed with varying batch sizes or written and read back; oracle over the recorded output: sorted, exact multiset union via hidden (input, sequence) payload, per-input order, dedupe count",
+   text="Seeded search over the number of inputs (0..9), key-overlap patterns, sorting-column lists (ascending/descending, nullable, two columns), source chunkings, consumer batch sizes, refinement on/off and read vs WriteRowGroup consumption. The output must be sorted under Schema.Comparator, contain every input row exactly once unaltered, keep each input's rows in order, and hold one row per distinct key when deduplicating.",
+   note="Inputs are sorted with the library's own comparator (its meaning is checked by C10). Each file input is a single row group.",
+   ref="DESIGN.md §4 C09"),
+ "C10": dict(level="exploration", engine="E4 stream-sim + E1 storage-sim",
+   technique="deterministic simulation: seeded write-batch / read / Reset histories on GenericBuffer, Buffer, RowBuffer then sort.Sort; SortingWriter with drawn run sizes, Flush calls, Reset reuse, simulated spill buffers and sink; oracle = permutation of unique ids, intact rows (checksum), order under an independent comparator and under Schema.Comparator, sorting metadata",
+   text="Seeded search over row multisets (nulls, duplicates), sorting-column lists, batch-size sequences (which decide the run lengths the column-buffer kernels see), interleaved reads, prior lives before Reset and SortingWriter run sizes. The independent comparator implements the format's SortingColumn meaning (direction on values only, nulls_first decides null placement).",
+   note="Repeated sorting columns and NaN keys are not generated; stability is not required.",
+   ref="DESIGN.md §4 C10"),
  "C11": dict(level="exploration", engine="E1 storage-sim (differential through H3 switches)",
    technique="deterministic simulation: seeded source row groups (files, buffers, merges, wrappers, a foreign RowGroup) written through WriteRowGroup twice - fast paths on, and forced onto the row path by verif-tagged switches - on simulated storage; outputs compared row by row and per-column metadata by metadata; path counters prove which path ran",
    text="Seeded search over source kinds x source/destination option pairs (equal in half of the runs so the verbatim copy fires). Both executions must read back exactly source.Rows(); the fast output must carry the same codec, encodings, page type, bloom-filter and page-index presence and sorting metadata per column as the row-path output, respect MaxRowsPerRowGroup, start every indexed page on its row, and never route a semantic wrapper (convert, dedupe, foreign) through a chunk-level path.",
